@@ -448,10 +448,10 @@ func scenDirect(k *K, prop string, forceFlood bool) {
 	hinc := hostile.Boot()
 	sizes := []int{0, 1, 100, 64 * 1024, 1 << 20, 4<<20 - 1, 4 << 20, 4<<20 + 1}
 	type frame struct {
-		to      int
-		payload []byte
-		fault   string
-		s       *SimStream
+		to           int
+		payload      []byte
+		fault        string
+		s            *SimStream
 		hostileEmpty bool
 	}
 	var frames []*frame
